@@ -16,20 +16,26 @@ CFG = {
                   "whitespace splitting are Go-side: the harness tokenises the real text with its own tokenizer",
     "technique": "Coq proof (induction over line lists / mesh lists, simulation between reader state and direct "
                  "semantics) + vm_compute correspondence check",
-    "design_ref": "DESIGN.md §4 C05, §5 entries 5, 6",
-    "n_quick": 320, "n_thorough": 6000,
+    "design_ref": "DESIGN.md §4 C05, §5 entries 5, 6; notes/C05.md",
+    "n_quick": 256, "n_thorough": 6000,
     "rule": "stream 1: lists of 1-5 named meshes (0-5 triangles each, welded/unwelded, independent presence of "
             "normals and UVs per mesh, 0-4 material ranges incl. empty ranges, repeated and nil materials, optional "
             "mtllib, 1/14 ill-formed) through obj.WriteMeshes -> tokenizer -> obj.ReadMesh; stream 2: OBJ text from "
             "the grammar (1-5 sections, all four corner forms, uniform or mixed per group, usemtl/g in every "
-            "arrangement, bare g, late v lines, comments, CRLF, 1/14 invalid index or bare usemtl) through "
+            "arrangement, bare g, late v lines, comments, o/s lines, blank lines, CRLF, tabs / multiple spaces, "
+            "extra w / third vt component, 1/8 corner tokens respelled (01, +1, 1//), 1/12 polygons or 2-corner "
+            "faces, 1/14 invalid index (0, out of range, negative), short v/vt/vn line or bare usemtl) through "
             "ReadMesh -> WriteMeshes -> ReadMesh; stream 3 (1/16): obj.Save -> obj.Load through the file system; "
             "distinct by input; non-trivial = at least one triangle and the first operation succeeded",
     "trusted": ["strconv.AppendFloat(…,'f',-1,64) followed by ParseFloat(…,32) yields float32(x) (false only at "
                 "exact float32 midpoints; generators do not produce them)",
-                "strings.Fields / bufio.Scanner line splitting is reproduced by the harness tokenizer, not modelled"],
+                "strings.Fields / bufio.Scanner line splitting is reproduced by the harness tokenizer, not modelled "
+                "(lines longer than bufio.MaxScanTokenSize are not generated)",
+                "the comparison model <-> implementation is on observables (validity + direct meaning of a text, "
+                "group observations + well-formedness of a read result), not on vertex numbering or line order"],
     "modelled": ["obj.WriteMeshes, obj.WriteMesh (line records, v/vt/vn offsets, g rule, material ranges)",
-                 "obj.ReadMesh (tables, per-group corner table, material range counting, error classes)",
+                 "obj.ReadMesh (tables, per-group corner table keyed by token text, material range counting, only the "
+                 "first three corners of an f line, index 0 = absent for vt/vn, error classes Declared / Crash)",
                  "obj.Save/obj.Load only through the same observation (material names resolved through the .mtl file)"],
 }
 
